@@ -50,6 +50,10 @@ def mysql_handshake(rng, short_auth=False):
             auth_len = rng.choice([21, 21, 21, 22, 32, 255, rng.randrange(21, 256)])
         # Protocol::HandshakeV10: $len = MAX(13, length of auth-plugin-data - 8)
         auth_2 = rbytes(rng, max(13, auth_len - 8))
+        if rng.random() < 0.5:
+            auth_2 = auth_2[:-1] + b'\x00'     # as real servers send it: the scramble is NUL-terminated
+        if rng.random() < 0.1:
+            auth_2 = auth_2[:-3] + b'\x00\x00\x00'
         name_lib = rng.choice(['mysql_native_password', 'caching_sha2_password', 'sha256_password', 'p'])
         name = name_lib.encode('ascii')
     lib = mysql.MySQLHandshakeV10(
